@@ -1,7 +1,217 @@
+import ElvisVerif.Model.Dns
 import Driver.Common
-/-! Line-protocol handlers for C20 (sub-commands `c20` / `c20-*`). -/
+/-! Line-protocol handler for C20 (sub-command `c20`): replays the op lines the harness derived
+from a real run (see harness/hfull/src/props/c20.rs) through `Elvis.Dns.step`. -/
 namespace Driver.C20
+open Elvis.Dns
 
-def dispatch (_sub : String) (_i _o : IO.FS.Stream) : Option (IO Unit) := none
+structure St where
+  rogue : String := "none"
+  /-- registrations, latest first -/
+  recordsRev : List (Bytes × Addr) := []
+  nclients : Nat := 0
+  /-- planned lookups, latest first -/
+  planRev : List (Nat × Bytes) := []
+  /-- `sys` has been initialised from the configuration lines -/
+  ready : Bool := false
+  sys : Sys := init [] 0
+
+def St.records (st : St) : List (Bytes × Addr) := st.recordsRev.reverse
+def St.plan (st : St) : List (Nat × Bytes) := st.planRev.reverse
+
+/-- initialise the system from the configuration lines at the first operation line -/
+def St.ensure (st : St) : St :=
+  if st.ready then st else { st with ready := true, sys := init (serverTable st.records) st.nclients }
+
+def parseAddr (s : String) : Option Addr :=
+  match (s.splitOn ".").mapM (·.toNat?) with
+  | some [a, b, c, d] =>
+    if a < 256 ∧ b < 256 ∧ c < 256 ∧ d < 256 then some ⟨UInt8.ofNat a, UInt8.ofNat b, UInt8.ofNat c, UInt8.ofNat d⟩ else none
+  | _ => none
+
+def showAddr (x : Addr) : String := s!"{x.a.toNat}.{x.b.toNat}.{x.c.toNat}.{x.d.toNat}"
+
+def kvOf (ws : List String) (k : String) : Option String :=
+  ws.findSome? fun w => if w.startsWith (k ++ "=") then some ((w.drop (k.length + 1)).toString) else none
+
+/-- insertion sort of (key, value) strings by key -/
+def insertS (x : String × String) : List (String × String) → List (String × String)
+  | [] => [x]
+  | y :: r => if x.1 ≤ y.1 then x :: y :: r else y :: insertS x r
+def sortS (l : List (String × String)) : List (String × String) := l.foldr insertS []
+
+def distinctKeys : Table → List (Bytes × Addr)
+  | [] => []
+  | (k, v) :: t => (k, v) :: (distinctKeys t).filter (fun e => e.1 ≠ k)
+
+def cacheDump (t : Table) : String :=
+  let es := sortS ((distinctKeys t).map fun e => (Driver.toHex e.1, showAddr e.2))
+  if es.isEmpty then "-" else ",".intercalate (es.map fun e => e.1 ++ "=" ++ e.2)
+
+/-- the harness' rogue responder (not part of the model of the code under test) -/
+def replyBytes (id : Nat) (qname aname : Bytes) (a : Addr) : Bytes :=
+  ({ header := Header.new id .response, question := Question.new qname, answer := Record.new aname 0 a } : DnsMsg).build
+
+def otherName : Bytes := "other.example".toUTF8.toList
+
+def splitQuery (q : Bytes) : Option (Nat × Bytes) :=
+  match takeU16 q with
+  | some (id, _) => if q.length < 13 then none else
+    match takeName (q.drop 12) with
+    | some (n, _) => some (id, n)
+    | none => none
+  | none => none
+
+def rogueReply (kind : String) (q : Bytes) : Option Bytes :=
+  match splitQuery q with
+  | none => none
+  | some (id, name) =>
+    let six : Addr := ⟨6, 6, 6, 6⟩
+    if kind == "id" then some (replyBytes ((id + 1) % 65536) name name six)
+    else if kind == "qname" then some (replyBytes id otherName name six)
+    else if kind == "name" then some (replyBytes id name otherName six)
+    else if kind == "short" then some (q.take 20)
+    else some (replyBytes id name name six)
+
+/-- deliver the oldest datagram in flight until nothing is left (bounded) -/
+def settle (s : Sys) : Nat → Sys
+  | 0 => s
+  | fuel + 1 => if s.net.isEmpty || s.crashed.isSome then s else settle (Elvis.Dns.step s (.deliver 0)) fuel
+
+/-- `expect-died` (the real process died): which planned lookup ends the process, and how?
+    The planned lookups are run through the model one after the other, each to completion
+    (which panic a lookup leads to does not depend on the interleaving: names that end the
+    process are never cached, and the port counter only counts misses). -/
+def expectLine (st : St) (table : Table) : String :=
+  if st.rogue == "none" then
+    let s := st.plan.foldl (fun s p =>
+      if s.crashed.isSome then s else
+        -- the log and the sockets that are done are not read by later steps: drop them (keeps
+        -- long plans linear)
+        let s' := settle (Elvis.Dns.step s (.lookup p.1 p.2 0)) 8
+        { s' with events := [], socks := s'.socks.filter (fun so => !so.done) }) (init table st.nclients)
+    match s.crashed with
+    | some e => "died " ++ e
+    | none => "alive"
+  else
+    let rec go : List (Nat × Bytes) → String
+      | [] => "alive"
+      | (_, name) :: r =>
+        match rogueReply st.rogue (queryBytes name 0) with
+        | none => go r
+        | some rep =>
+          match onReply [] name rep with
+          | .error e => "died " ++ e
+          | .ok _ => go r
+    go st.plan
+
+def findIdx (net : List Datagram) (p : Datagram → Bool) : Option Nat :=
+  let rec go (i : Nat) : List Datagram → Option Nat
+    | [] => none
+    | d :: r => if p d then some i else go (i + 1) r
+  go 0 net
+
+def step (st0 : St) (ws : List String) : St × String :=
+  let st := match ws with
+    | "lookup" :: _ | "deliver" :: _ | "drop" :: _ | "end" :: _ => st0.ensure
+    | _ => st0
+  match ws with
+  | ["case", id] => ({}, s!"case {id}")
+  | "cfg" :: rest => ({ st with rogue := (kvOf rest "rogue").getD "none" }, "cfg")
+  | ["rec", n, a] =>
+    match Driver.parseHex n, parseAddr a with
+    | some nb, some ad => ({ st with recordsRev := (nb, ad) :: st.recordsRev, ready := false }, "rec")
+    | _, _ => (st, "bad-op")
+  | ["clients", n] =>
+    ({ st with nclients := n.toNat?.getD 0, ready := false }, "clients")
+  | ["plan", c, _t, n] =>
+    match c.toNat?, Driver.parseHex n with
+    | some cc, some nb => ({ st with planRev := (cc, nb) :: st.planRev }, "plan")
+    | _, _ => (st, "bad-op")
+  | ["expect-died"] => (st, expectLine st (serverTable st.records))
+  | ["lookup", c, n, id] =>
+    match c.toNat?, Driver.parseHex n with
+    | some cc, some nb =>
+      let idn := id.toNat?.getD 0
+      let s' := Elvis.Dns.step st.sys (.lookup cc nb idn)
+      let out :=
+        match s'.crashed with
+        | some e => "crash " ++ e
+        | none =>
+          match s'.events.getLast? with
+          | some (.resolved _ _ a true) => "hit " ++ showAddr a
+          | some (.sent d) =>
+            (match d.src with
+             | .client _ p => s!"miss {p} {Driver.toHex d.payload}"
+             | .server => "bad-state")
+          | _ => "bad-state"
+      ({ st with sys := s' }, out)
+    | _, _ => (st, "bad-op")
+  | ["deliver", "q", c, p] =>
+    match c.toNat?, p.toNat? with
+    | some cc, some pp =>
+      match findIdx st.sys.net (fun d => d.dst == .server && d.src == .client cc pp) with
+      | none => (st, "no-such-datagram")
+      | some k =>
+        if st.rogue == "none" then
+          let s' := Elvis.Dns.step st.sys (.deliver k)
+          let out :=
+            match s'.crashed with
+            | some e => "crash " ++ e
+            | none =>
+              match s'.events.getLast? with
+              | some (.sent d) => "reply " ++ Driver.toHex d.payload
+              | _ => "bad-state"
+          ({ st with sys := s' }, out)
+        else
+          match st.sys.net[k]? with
+          | none => (st, "no-such-datagram")
+          | some d =>
+            match rogueReply st.rogue d.payload with
+            | none => ({ st with sys := { st.sys with net := st.sys.net.eraseIdx k } }, "reply none")
+            | some r =>
+              let d' : Datagram := { src := .server, dst := d.src, payload := r }
+              ({ st with sys := { st.sys with net := st.sys.net.eraseIdx k ++ [d'], events := st.sys.events ++ [.sent d'] } },
+               "reply " ++ Driver.toHex r)
+    | _, _ => (st, "bad-op")
+  | ["drop", "q", c, p] =>
+    -- the harness saw this query reach the server machine and be discarded there (listen backlog
+    -- full, finding F-C20-3): it leaves the network unanswered
+    match c.toNat?, p.toNat? with
+    | some cc, some pp =>
+      match findIdx st.sys.net (fun d => d.dst == .server && d.src == .client cc pp) with
+      | none => (st, "no-such-datagram")
+      | some k => ({ st with sys := { st.sys with net := st.sys.net.eraseIdx k } }, "dropped")
+    | _, _ => (st, "bad-op")
+  | ["deliver", "r", c, p] =>
+    match c.toNat?, p.toNat? with
+    | some cc, some pp =>
+      match findIdx st.sys.net (fun d => d.dst == .client cc pp) with
+      | none => (st, "no-such-datagram")
+      | some k =>
+        let s' := Elvis.Dns.step st.sys (.deliver k)
+        let out :=
+          match s'.crashed with
+          | some e => "crash " ++ e
+          | none =>
+            match s'.events.reverse with
+            | .resolved _ _ a false :: .accepted _ _ _ m :: _ =>
+              s!"ok {showAddr a} id={m.header.id} q={Driver.toHex m.question.qname} an={Driver.toHex m.answer.name}"
+            | _ => "bad-state"
+        ({ st with sys := s' }, out)
+    | _, _ => (st, "bad-op")
+  | ["end"] =>
+    let parts := (List.range st.nclients).map fun c =>
+      let sent := (st.sys.events.filter fun e =>
+        match e with
+        | .sent d => (match d.src with | .client c' _ => c' == c | .server => false)
+        | _ => false).length
+      let cache := match st.sys.clients[c]? with | some cl => cacheDump cl.cache | none => "-"
+      s!"c{c} sent={sent} cache={cache}"
+    (st, " ; ".intercalate parts)
+  | _ => (st, "bad-op")
+
+def dispatch (sub : String) (i o : IO.FS.Stream) : Option (IO Unit) :=
+  if sub == "c20" || sub == "c20-ports" then some (Driver.loop i o step {}) else none
 
 end Driver.C20
